@@ -112,17 +112,18 @@ def convolve1d(f, weights, axis, mode='reflect', cval=0., out=None):
         weights = np.ascontiguousarray(weights, dtype=np.double)
         indices = [a for a in range(f.ndim) if a != axis] + [axis]
         rindices = [indices.index(a) for a in range(f.ndim)]
-        oshape = f.shape
+        # the caller's buffer is validated against (and filled in) the original axis order
+        result = _get_output(f, out, 'convolve1d')
         f = f.transpose(indices)
         tshape = f.shape
         f = f.reshape((-1, f.shape[-1]))
 
-        out = _get_output(f, out, 'convolve1d')
-        _convolve.convolve1d(f, weights, out, mode2int[mode])
-        out = out.reshape(tshape)
-        out = out.transpose(rindices)
-        out = out.reshape(oshape)
-        return out
+        tmp = np.empty(f.shape, f.dtype)
+        _convolve.convolve1d(f, weights, tmp, mode2int[mode])
+        tmp = tmp.reshape(tshape)
+        tmp = tmp.transpose(rindices)
+        result[...] = tmp
+        return result
     else:
         index = [None] * f.ndim
         index[axis] = slice(0, None)
